@@ -36,8 +36,8 @@ fn clean_frame(s: &str) -> String {
   // strip the trailing ::h<hash>
   let s = s.trim();
   match s.rfind("::h") {
-    Some(i) if s.len() - i == 19 => s[..i].to_string(),
-    _ => s.to_string(),
+    Some(i) if s.len() - i == 19 => s[..i].replace(' ', "_"),
+    _ => s.replace(' ', "_"),
   }
 }
 
